@@ -528,7 +528,7 @@ func TestC13Deploy(t *testing.T) {
 	runRapid(t, col, func(rt *rapid.T, h *ev.History) {
 		n := rapid.SampledFrom(ns).Draw(rt, "n")
 		s := schedule{n: n, start: make([]int, n), absent: make([]bool, n), cancelMember: -1}
-		shapes := []string{"simultaneous", "staggered", "staggered", "absent", "cancel", "cancel", "late", "multi-cancel", "multi-cancel"}
+		shapes := []string{"simultaneous", "staggered", "staggered", "absent", "cancel", "cancel", "late", "multi-cancel", "multi-cancel", "all-restart"}
 		if n >= 4 {
 			shapes = append(shapes, "churn", "expiry-churn")
 		}
@@ -576,6 +576,13 @@ func TestC13Deploy(t *testing.T) {
 				} else {
 					s.start[i] = rapid.IntRange(0, 5).Draw(rt, "startBlock")
 				}
+			}
+		case "all-restart":
+			// every member's process dies at the same block (a data-centre outage) and comes back later
+			at := rapid.IntRange(1, 80+50*n).Draw(rt, "at")
+			after := rapid.SampledFrom([]int{1, 2, 5, 20, 60}).Draw(rt, "restartAfter")
+			for i := 0; i < n; i++ {
+				s.more = append(s.more, interruption{member: i, at: at, restartAfter: after + rapid.IntRange(0, 3).Draw(rt, "skew")})
 			}
 		case "multi-cancel":
 			// two or three interruptions of any members (also the same one twice), short and long outages
@@ -651,6 +658,41 @@ var c13Regressions = []struct{ spec, what string }{
 	{"2;0,0", "fixed a006c90: two members (the leader never read member 1's domain)"},
 	{"3;0,0,0;1,140,20", "a non-leading member of 3 restarted at the NEO distribution stage"},
 	{"4;3,0,7,1;0,150,30", "the leader of 4 restarted late"},
+}
+
+// TestC13CrashPoints: a single-member committee interrupted at every block of its run.
+func TestC13CrashPoints(t *testing.T) {
+	theT = t
+	col := ev.New("C13", "crash-points",
+		"complete enumeration for committees of 1 (every block 1..VERIF_C13_CRASH_MAX1, default 50) and 2 keys (both members at once, every second block 2..VERIF_C13_CRASH_MAX2, default 0 = off in quick): all members are interrupted at that block and restarted 1 block later; same oracle as the generated schedules; non-trivial = every schedule")
+	defer func() { col.Flush(true) }()
+	nshards, shard := envInt("VERIF_NSHARDS", 1), envInt("VERIF_SHARD_INDEX", 0)
+	idx := 0
+	run := func(s schedule) bool {
+		idx++
+		if idx%nshards != shard {
+			return true
+		}
+		h := ev.NewHistory()
+		h.Op("schedule: %s", s)
+		return runCase(t, col, h, func() {
+			runSchedule(s, h, col)
+			h.NonTrivial()
+		})
+	}
+	for at := 1; at <= envInt("VERIF_C13_CRASH_MAX1", 50); at++ {
+		if !run(schedule{n: 1, start: []int{0}, absent: []bool{false}, cancelMember: 0, cancelAt: at, restartAfter: 1}) {
+			return
+		}
+	}
+	for at := 2; at <= envInt("VERIF_C13_CRASH_MAX2", 0); at += 2 {
+		s := schedule{n: 2, start: []int{0, 0}, absent: []bool{false, false}, cancelMember: -1}
+		s.more = []interruption{{0, at, 1}, {1, at, 1}}
+		if !run(s) {
+			return
+		}
+	}
+	col.SetExhaustive(true)
 }
 
 func TestC13Regressions(t *testing.T) {
